@@ -425,7 +425,15 @@ let handle (line : string) : string =
                       | Some (h, i, reg, k, false) -> sending := Some (h, i, reg, k, true); if reg then apply (WireOut h)
                       | _ -> ()) in
        let finish () = (wire (); sending := None) in
-       for _ = 1 to n do
+       (* the index of the event after which a future was first observable as completed: its waiter is no longer
+          pending AND its send has returned (the harness only has the future from then on) *)
+       let resolved_at : (int * int) list ref = ref [] in
+       let observe k =
+         let cur = (match !sending with Some (_, j, _, _, _) -> j | None -> -1) in
+         List.iteri (fun i w ->
+           if i <> cur && not (List.mem_assoc i !resolved_at) && not (List.mem i !errs) then
+             (match w with WPending0 -> () | _ -> resolved_at := (i, k) :: !resolved_at)) (outcomes !st) in
+       for ev = 0 to n - 1 do
          (match next t with
           | "R" -> finish (); let h = next_n t in
                    let i = int_of_nat !st.nw in let reg = not !st.closed in
@@ -454,17 +462,20 @@ let handle (line : string) : string =
           | "PG" -> let h = next_n t in let _ = next t in let _ = next t in apply (Peer h)
           | "PT" -> let _ = next t in let _ = next t in ()
           | "B" -> let _ = next t in apply PeerBad
-          | s -> raise (Parse ("client event " ^ s)))
+          | s -> raise (Parse ("client event " ^ s)));
+         observe ev
        done;
        finish ();
+       observe n;
        Buffer.add_string b "CL";
        List.iteri (fun i w ->
          match List.assoc_opt i !labels with
          | Some l -> Buffer.add_string b (" " ^ l)
          | None ->
+           let at = (match List.assoc_opt i !resolved_at with Some k -> "@" ^ string_of_int k | None -> "") in
            (match w with
-            | WGot f -> Buffer.add_string b (" GOT:" ^ hex_of_n f.hop0 ^ ":" ^ Printf.sprintf "%x" (int_of_nat f.fid))
-            | WDropped -> Buffer.add_string b " ERR"
+            | WGot f -> Buffer.add_string b (" GOT:" ^ hex_of_n f.hop0 ^ ":" ^ Printf.sprintf "%x" (int_of_nat f.fid) ^ at)
+            | WDropped -> Buffer.add_string b (" ERR" ^ at)
             | WPending0 -> Buffer.add_string b " PENDING")) (outcomes !st);
        Buffer.add_string b (if !st.closed then " READER stopped" else " READER alive")
    | "X" ->
